@@ -8,6 +8,7 @@ import Rbql.Model.Like
 import Rbql.Model.PyString
 import Rbql.Model.Sources
 import Rbql.Model.Parse
+import Rbql.Model.ParseJs
 import Driver.Codec
 import Driver.EngineOps
 open Rbql Driver
@@ -152,6 +153,15 @@ def step (line : String) : String :=
   | ["combine", e, lits] => encStr (combineLiterals (decStr e) (decList lits))
   | ["redundant", t] => encStr (removeRedundantTableName (decStr t))
   | ["actions", t] => encActions (separateActions (decStr t))
+  | ["actionsjs", t] =>
+    (match separateActionsJs (decStr t) with
+     | .ok a => encActions (.ok a)
+     | .err e => encActions (.error e)
+     | .assertion => "err assertion")
+  | ["joinexprjs", t] =>
+    (match parseJoinExpressionJs (decStr t) with
+     | .error e => encParseErr e
+     | .ok (tid, pairs) => s!"ok {encStr tid} " ++ " ".intercalate (pairs.map (fun p => encStr p.1 ++ "=" ++ encStr p.2)))
   | ["parse", t] =>
     -- the whole shallow-parse pipeline: cleanup, literal separation, redundant table name, actions
     let fl := separateLiterals (cleanupQuery (decStr t))
